@@ -4,6 +4,7 @@ import (
 	"fmt"
 	"os"
 	"path/filepath"
+	"runtime"
 	"strconv"
 	"strings"
 	"sync"
@@ -208,6 +209,7 @@ func poolCase(c *run.Ctx, cs Case) {
 	t0 := time.Now()
 	var mu sync.Mutex
 	var ops []porcupine.Operation
+	var stillHeld []*poolObj
 	var wg sync.WaitGroup
 	for g := 0; g < G; g++ {
 		wg.Add(1)
@@ -240,11 +242,17 @@ func poolCase(c *run.Ctx, cs Case) {
 			}
 			mu.Lock()
 			ops = append(ops, local...)
+			// objects still held when this client stops must stay reachable until the
+			// history has been checked: pointer identity is the value of the history,
+			// and a collected object's address can be handed out again by new()
+			stillHeld = append(stillHeld, mine...)
 			mu.Unlock()
 		}(g)
 	}
 	wg.Wait()
 	res, _ := porcupine.CheckOperationsVerbose(poolModel(), ops, 30*time.Second)
+	runtime.KeepAlive(stillHeld)
+	runtime.KeepAlive(pool)
 	switch res {
 	case porcupine.Illegal:
 		c.Violation("pool-not-linearizable", fmt.Sprintf("object pool history of %d operations from %d goroutines is not linearizable against the free-set model (an object was handed out while held, or a returned object was lost)", len(ops), G), cs)
